@@ -7,11 +7,11 @@ package dprod
 
 import (
 	"context"
-	"net"
 	"encoding/json"
 	"errors"
 	"fmt"
 	"math/rand"
+	"net"
 	"os"
 	"sync"
 	"testing"
@@ -340,11 +340,7 @@ func runScenario(t *testing.T, rec *sim.Recorder, sc Scenario) {
 					refuseUntil[addrs[n%len(addrs)]] = time.Now().Add(time.Duration(st.Ms) * time.Millisecond)
 					refuseMu.Unlock()
 				case "stall":
-					d := time.Duration(st.Ms) * time.Millisecond
-					c.ControlKey(int16(kmsg.Produce), func(kmsg.Request) (kmsg.Response, error, bool) {
-						c.SleepControl(func() { time.Sleep(d) })
-						return nil, nil, false
-					})
+					chaos.StallNext(int16(kmsg.Produce), n, time.Duration(st.Ms)*time.Millisecond)
 				}
 			}
 			synctest.Wait() // quiescence: everything that can run has run
@@ -402,6 +398,8 @@ func runScenario(t *testing.T, rec *sim.Recorder, sc Scenario) {
 		mu.Unlock()
 		c.Close()
 		wg.Wait()
+		time.Sleep(2 * time.Second) // let injected stalls (sleeping control functions) run out before the bubble ends
+		synctest.Wait()
 	})
 }
 
